@@ -47,12 +47,22 @@ D = {
 }
 NOTES = {
  "C02-A": "The C02 check is silent by design: with no pinned algorithm (config alg none) the pinning clause is not involved; the change is caught under C01 and C03.",
- "C08-A": "MISSED. The unit is INCONCLUSIVE (exit 2): the change calls EC_GROUP_get_degree, which the unit's OpenSSL environment does not model, and even with a model the violated clause is completeness of import (well-formed key must import), which the one-tracked-member JSON model cannot state (DESIGN 6 C08).",
- "C20-A": "MISSED (INCONCLUSIVE, exit 2): token bytes read from stdin are not modelled by the tool environment; the loop contract's frame no longer fits the changed buffer and the unit gives no verdict.",
- "C19-B": "Reported under C02 (the admission clause carries the C02 label); the C19 check itself is silent.",
+ "C08-A": "First MISSED (INCONCLUSIVE: EC_GROUP_get_degree not modelled, completeness not stated). Caught since the second session by the completeness unit C08.openssl_process_ec.complete (EC_GROUP_get_degree modelled, well-formed lengths up to the field size).",
+ "C08-C": "First MISSED (exit 0: completeness of import was not stated). Caught since the completeness unit C08.openssl_process_ec.complete was added (x and y lengths independent).",
+ "C10-A": "First reported under C03 only (the clause 'header set up once, for the encoded algorithm' carried the C03 label); the same clause was added under C10.",
+ "C11-B": "NOT DECIDED (exit 2): the rewritten decoder has other loops, so the loop contracts no longer apply, and the finite units run out of memory on the 256-byte chunk buffer; a structure-independent bounded unit for 264-character texts was tried and needs more than 12 GB (DESIGN 11c). The seeded defect needs a text longer than 256 characters, which no finite unit here reaches.",
+ "C13-B": "First reported under C14 only; a C13 clause was added (a refusal of generate has its cause in this call, not in the error state an earlier call left behind).",
+ "C14-B": "First reported under C15 and C04 only (the clause 'return value == stored code' sits in the C15 getter units); those units are now also listed under C14.",
+ "C16-B": "NOT DECIDED for the seeded path (exit 2 under C07/C17: jwk_process_one changed its signature, the contract's forward declaration no longer compiles). The first run reported C16 exit 1, but for the wrong reason (the scenario harness calls jwks_item_add, which the change removes); such calls are now classified as an environment gap.",
+ "C17-B": "First MISSED: the model's json_decref did not notice a reference count being touched after release. json_incref/json_decref now assert liveness (generated header); caught since -- and the same assertion exhibited the genuine defect F18 in jwt_set_json, which the seed's author had copied the idiom from.",
+ "C19-B": "Reported under C02 (setkey deviates from the documented admission table); the C19 check itself is silent: the callback's choice is still subject to the table the contract states.",
+ "C20-A": "NOT DECIDED (exit 2): token bytes read from stdin are not modelled by the tool environment, and the loop contract's frame names the fixed-size buffer the change replaces.",
+ "C20-B": "First MISSED under C20/C08/C07; caught since the completeness unit C08.openssl_process_ec.complete was added (a d with a leading zero octet is a well-formed member).",
  "C05-B": "Reported under C10 (time-claim clauses carry the C10 label); the C05 check itself is silent.",
  "C06-B": "Reported under C14 (message handling clauses).",
- "C18-A": "Caught through the frame/argument obligations of the provider entry.",
+ "C18-A": "Caught through the argument obligation of the HMAC model (a NULL output buffer is libcrypto's static buffer) and the frame of the provider entry.",
+ "C18-B": "Caught through the frame clause of the provider entry (process-wide state is written); no schedule is explored.",
+ "C12-B": "Caught through the frame clause of gnutls_verify_sha_pem (a thread-local cache is state outside the per-call objects).",
 }
 rows = []
 for k in sorted(D):
@@ -63,15 +73,18 @@ for k in sorted(D):
     res = open(os.path.join(d, "result.txt")).read() if os.path.exists(os.path.join(d, "result.txt")) else ""
     props_run = open(os.path.join(d, "props.txt")).read().split() if os.path.exists(os.path.join(d, "props.txt")) else []
     per = dict(re.findall(r"^== (C\d\d) exit=(\d+)", res, re.M))
+    evaluated_at = re.findall(r"^# evaluated with (.*)$", res, re.M)
     viol = re.findall(r"^VIOLATION property=(C\d\d) replay=\S*?/(C\d\d_[^\s]+?)\.json", res, re.M)
     failed = re.findall(r"^\s+FAILED (\S+)\s+(.*?)\s+@", res, re.M)
     caught_by = sorted(p for p in per if per[p] == "1")
     meta = {"seed": k, "property": prop, "change": what, "needs_to_manifest": needs,
-            "applied_with": "bin/seedtest.sh seeded/%s/patch.diff %s   (git -C /repo apply; bin/check <prop> --no-evidence; git -C /repo checkout -- .)" % (k, " ".join(props_run)),
+            "applied_with": "bin/seedtest_wt.sh %s %s   (scratch worktree of /repo HEAD; git apply seeded/%s/patch.diff; VERIF_REPO=<worktree> bin/check <prop> --no-evidence; worktree removed) -- equivalent to bin/seedtest.sh seeded/%s/patch.diff <props> on /repo itself" % (k, " ".join(props_run), k, k),
+            "confirmed_by_me": (open(os.path.join(d, "confirm.txt")).read().strip().split("\n") if os.path.exists(os.path.join(d, "confirm.txt")) else "first session: patch applied in a scratch worktree, full ctest suite green, demonstration failed with and passed without the patch"),
             "checks_run": props_run, "exit_codes": per,
             "caught": bool(caught_by), "caught_by_properties": caught_by,
             "failed_obligations": ["%s: %s" % (a, b) for a, b in failed][:8],
             "tests": "the author's run: full ctest suite green with the patch (10/10 executables, 101 cases); demonstration passes on the clean tree and fails on the patched one",
+            "evaluated": evaluated_at[-1] if evaluated_at else "first session",
             "note": NOTES.get(k, "")}
     if "DOES-NOT-APPLY" in res:
         meta["note"] = "patch no longer applies to the current tree; " + meta["note"]
